@@ -445,6 +445,10 @@ impl Scenario for C19 {
             // parts (by content) that were ever added at retained position i and later undone
             let mut undone_at: Vec<Vec<[u8; 32]>> = Vec::new();
             let part_ids: Vec<[u8; 32]> = case.parts.iter().map(|p| p.0.tree_hash()).collect();
+            // parts that were added and later undone (any position)
+            let mut undone_parts: Vec<usize> = Vec::new();
+            // nodes (NodePtr) that were passed to an add call that was later undone
+            let mut undone_nodes: Vec<NodePtr> = Vec::new();
             for (step, h) in case.history.iter().enumerate() {
                 match h {
                     HOp::Add(p) => {
@@ -535,8 +539,21 @@ impl Scenario for C19 {
                                         repeat = "same-node-consecutive-list";
                                     }
                                 }
+                                // does an undone part share a sub-tree (serialized length >= 4, no sentinel
+                                // inside) with a retained part? Stale links left by an undone add can only be
+                                // reached from such a shared sub-tree.
+                                let elig = |q: usize| -> Vec<[u8; 32]> { eligible_subtrees(&case.parts[q].0) };
+                                let mut undone_set: Vec<[u8; 32]> = Vec::new();
+                                for q in &undone_parts {
+                                    undone_set.extend(elig(*q));
+                                }
+                                let overlap = retained.iter().any(|(_, q)| elig(*q).iter().any(|h| undone_set.contains(h)));
+                                // ... or from a node that was itself added in an undone call and is added again
+                                let node_readded = retained.iter().any(|(c, _)| undone_nodes.contains(&added_nodes[*c as usize - 1]));
+                                let overlap = overlap || node_readded;
                                 v.with("readd", if divergent { "divergent-after-undo" } else { "none-or-same" })
                                     .with("undo_before", if any_undo { "yes" } else { "no" })
+                                    .with("undo_reuse", if overlap { "yes" } else { "no" })
                                     .with("fresh_serializer", if fresh { "correct" } else { "also-wrong" })
                                     .with("repeat", repeat)
                             };
@@ -635,6 +652,10 @@ impl Scenario for C19 {
                             if !undone_at[i].contains(&part_ids[*q]) {
                                 undone_at[i].push(part_ids[*q]);
                             }
+                            if !undone_parts.contains(q) {
+                                undone_parts.push(*q);
+                            }
+                            undone_nodes.push(added_nodes[retained[i].0 as usize - 1]);
                         }
                         retained.truncate(t.prefix.len());
                         holes = t.holes;
@@ -746,6 +767,32 @@ impl Scenario for C19 {
 }
 
 pub struct C19;
+
+/// tree hashes of the sub-trees of `t` that could be back-referenced: classic serialized length
+/// >= 4 and no sentinel marker inside
+fn eligible_subtrees(t: &Sx) -> Vec<[u8; 32]> {
+    let c = t.compact();
+    let hashes = c.tree_hashes();
+    let mut len = vec![0u64; c.nodes.len()];
+    let mut has_mark = vec![false; c.nodes.len()];
+    let mut out = Vec::new();
+    for i in 0..c.nodes.len() {
+        match &c.nodes[i] {
+            SxNode::A(b) => {
+                has_mark[i] = b.as_slice() == SENTINEL_MARK;
+                len[i] = model::ser_atom_len(b);
+            }
+            SxNode::P(l, r) => {
+                has_mark[i] = has_mark[*l as usize] || has_mark[*r as usize];
+                len[i] = 1u64.saturating_add(len[*l as usize]).saturating_add(len[*r as usize]);
+            }
+        }
+        if !has_mark[i] && len[i] >= 4 {
+            out.push(hashes[i]);
+        }
+    }
+    out
+}
 
 /// the same retained additions on a fresh serializer (no undone call ever happened)
 fn fresh_serialization_ok(a: &Allocator, sentinel: NodePtr, seq: &[NodePtr], expect: &Sx) -> bool {
